@@ -708,9 +708,20 @@ func (ev *Env) call(x *ast.CallExpr) Val {
 		return boolV(ev.isNilTerm(v))
 	case "typ":
 		v := arg(0)
+		if v.T != nil {
+			if _, isPtr := v.T.Underlying().(*types.Pointer); isPtr {
+				// a concrete pointer seen through an interface contract (implements): its own type
+				return intV(fmt.Sprint(ev.fx.E.typeIDOf(v.T)))
+			}
+		}
 		return intV(v.L[0])
 	case "payload":
 		v := arg(0)
+		if v.T != nil {
+			if _, isPtr := v.T.Underlying().(*types.Pointer); isPtr {
+				return intV(v.L[0])
+			}
+		}
 		return intV(v.L[1])
 	case "typeid":
 		// typeid("*builtInFunctions.esdtTransfer")
@@ -950,6 +961,26 @@ func (ev *Env) call(x *ast.CallExpr) Val {
 			specFail("loc needs a pointer")
 		}
 		return intV("(lockid " + v.L[0] + " " + fmt.Sprint(hashStr(rootKey(pt.Elem())+pth)) + ")")
+	case "box":
+		// box(x): x converted to interface{} (a basic value in its canonical box, a pointer as itself)
+		v := arg(0)
+		if v.T == nil {
+			specFail("box of a ghost value")
+		}
+		tid := fmt.Sprint(ev.fx.E.typeIDOf(v.T))
+		it := types.NewInterfaceType(nil, nil)
+		if _, isPtr := v.T.Underlying().(*types.Pointer); isPtr {
+			return Val{T: it, L: []string{tid, v.L[0]}}
+		}
+		fn := canonBox(v.T)
+		if fn == "" {
+			specFail("box(%s): only basic values and pointers", v.T)
+		}
+		c := v.L[0]
+		if isString(v.T) || isByteSlice(v.T) {
+			c = ev.seqOf(v)
+		}
+		return Val{T: it, L: []string{tid, "(" + fn + " " + c + ")"}}
 	case "mkey":
 		// mkey(k): the key term of a map key value
 		return intV(mapKey(arg(0)))
